@@ -3,6 +3,8 @@
 package verifsim
 
 import (
+	"runtime"
+	"strings"
 	"testing"
 	"testing/synctest"
 )
@@ -18,4 +20,20 @@ func syncTestPlain(t *testing.T, f func()) {
 	if pv != nil {
 		panic(pv)
 	}
+}
+
+// DurablyBlocked returns the stacks of bubble goroutines that are durably
+// blocked right now (excluding the caller). Used at the end of a case to turn
+// synctest's opaque "blocked goroutines remain" into a readable report.
+func DurablyBlocked() []string {
+	buf := make([]byte, 1<<20)
+	n := runtime.Stack(buf, true)
+	var out []string
+	for _, g := range strings.Split(string(buf[:n]), "\n\n") {
+		first, _, _ := strings.Cut(g, "\n")
+		if strings.Contains(first, "(durable)") && !strings.Contains(g, "internal/synctest.Run(") && !strings.Contains(g, "testing/synctest.testingSynctestTest(") {
+			out = append(out, g)
+		}
+	}
+	return out
 }
